@@ -51,9 +51,13 @@ def run(tier):
     L.jls_core_signal_def_align.argtypes = [ct.POINTER(J.SignalDef)]
     L.jls_core_signal_def_align.restype = ct.c_int32
     trace = os.path.join(sc, "sigdef.ndjson")
-    npts = 0
+    curf = os.path.join(sc, "sigdef.cur")
     inputs = grid + [v for v in EXTRA]
-    with open(trace, "w") as f:
+
+    def feed():
+      # runs in a forked child: a fault or an endless loop of the function under test is a finding, not a tool failure
+      npts = 0
+      with open(trace, "w") as f, open(curf, "w") as cur:
         x = 0
         for dt, w in WIDTHS.items():
             for spd in inputs:
@@ -69,6 +73,9 @@ def run(tier):
                             d = J.SignalDef()
                             d.data_type = J.dt_code(dt)
                             d.samples_per_data, d.sample_decimate_factor, d.entries_per_summary, d.summary_decimate_factor = spd, sdf, eps, sumdf
+                            cur.seek(0)
+                            cur.write(("%s %d %d %d %d" % (dt, spd, sdf, eps, sumdf)).ljust(70) + "\n")
+                            cur.flush()
                             rc = L.jls_core_signal_def_align(ct.byref(d))
                             o = (d.samples_per_data, d.sample_decimate_factor, d.entries_per_summary, d.summary_decimate_factor)
                             rc2 = L.jls_core_signal_def_align(ct.byref(d)) if rc == 0 else 0
@@ -78,6 +85,19 @@ def run(tier):
                         x += 1
                         npts += len(tab)
                         f.write(json.dumps({"e": "SigDefRow", "x": x, "w": w, "dt": dt, "spd": clip(spd), "sdf": clip(sdf), "tab": tab}, separators=(",", ":")) + "\n")
+                        f.flush()
+
+    status = C.isolated(feed, timeout=1500)
+    if status.startswith("exit"):
+        raise C.ToolFailure("grid feeder failed (%s)" % status)
+    rows = [l for l in open(trace).read().split("\n") if l.endswith("}")]
+    open(trace, "w").write("\n".join(rows) + ("\n" if rows else ""))
+    x = len(rows)
+    npts = sum(len(json.loads(l)["tab"]) for l in rows)
+    if status != "ok":
+        point = open(curf).read().strip()
+        ck.violation({"where": "implementation", "reason": "jls_core_signal_def_align crashed or did not return (%s)" % status,
+                      "point_dt_spd_sdf_eps_sumdf": point, "class": "width-24" if point.startswith(("i24", "u24")) else ""})
     ck.log("fed %d grid points to the real jls_core_signal_def_align (%d rows)" % (npts, x))
     v = C.validate_trace_parallel("SigDefTrace", "SigDefTrace.cfg", trace, parts=12, timeout=2400) if False else validate_rows(trace)
     ck.log("trace validation: %d/%d rows, %d rejection(s)" % (v.consumed, v.total, len(v.rejections)))
